@@ -48,38 +48,47 @@ type Scn struct {
 	// storage error (once): the real worker() / handle() decide what happens next. At
 	// quiescence everything announced and accepted must still have been done.
 	FailCommit int `json:"fail_commit"`
+	// APIWrite: after submitting its task(s) the API thread makes two more WRITE calls
+	// (UseWallet, NewAddress on wallet A) - they take the wallet lock and a write transaction
+	// while the worker is busy with the task
+	APIWrite bool `json:"api_write"`
 }
 
 // Scenarios is the scenario list (histories x stop placement).
 var Scenarios = []Scn{
-	{"remove+2tips+stop", "remove", false, 2, true, 0, 0, false, 0},
-	{"remove+stop", "remove", false, 0, true, 0, 0, false, 0},
-	{"import+2tips+stop", "import", false, 2, true, 0, 0, false, 0},
-	{"import+stop", "import", false, 0, true, 0, 0, false, 0},
-	{"resume-remove+stop", "remove", true, 0, true, 0, 0, false, 0},
-	{"resume-import+1tip+stop", "import", true, 1, true, 0, 0, false, 0},
-	{"2tips+stop", "none", false, 2, true, 0, 0, false, 0},
-	{"remove+2tips", "remove", false, 2, false, 0, 0, false, 0},
-	{"import+2tips", "import", false, 2, false, 0, 0, false, 0},
-	{"resume-remove+1tip", "remove", true, 1, false, 0, 0, false, 0},
-	{"resume-import+1tip", "import", true, 1, false, 0, 0, false, 0},
+	{"remove+2tips+stop", "remove", false, 2, true, 0, 0, false, 0, false},
+	{"remove+stop", "remove", false, 0, true, 0, 0, false, 0, false},
+	{"import+2tips+stop", "import", false, 2, true, 0, 0, false, 0, false},
+	{"import+stop", "import", false, 0, true, 0, 0, false, 0, false},
+	{"resume-remove+stop", "remove", true, 0, true, 0, 0, false, 0, false},
+	{"resume-import+1tip+stop", "import", true, 1, true, 0, 0, false, 0, false},
+	{"2tips+stop", "none", false, 2, true, 0, 0, false, 0, false},
+	{"remove+2tips", "remove", false, 2, false, 0, 0, false, 0, false},
+	{"import+2tips", "import", false, 2, false, 0, 0, false, 0, false},
+	{"resume-remove+1tip", "remove", true, 1, false, 0, 0, false, 0, false},
+	{"resume-import+1tip", "import", true, 1, false, 0, 0, false, 0, false},
 	// multi-batch imports (stop between two steps of an import; queue pressure while a task
 	// that is queued again after every batch is running)
-	{"import3+stop [batch]", "import", false, 0, true, 1, 0, false, 0},
-	{"import3+1tip [batch]", "import", false, 1, false, 1, 0, false, 0},
-	{"import3+1tip+stop [batch][fast][deep]", "import", false, 1, true, 1, 0, true, 0},
-	{"import3+3tasks [batch][fast]", "import", false, 0, false, 1, 3, true, 0},
-	{"import3+3tasks+stop [batch][fast][deep]", "import", false, 0, true, 1, 3, true, 0},
-	{"resume-import3+1tip+stop [batch][fast][deep]", "import", true, 1, true, 1, 0, true, 0},
+	{"import3+stop [batch]", "import", false, 0, true, 1, 0, false, 0, false},
+	{"import3+1tip [batch]", "import", false, 1, false, 1, 0, false, 0, false},
+	{"import3+1tip+stop [batch][fast][deep]", "import", false, 1, true, 1, 0, true, 0, false},
+	{"import3+3tasks [batch][fast]", "import", false, 0, false, 1, 3, true, 0, false},
+	{"import3+3tasks+stop [batch][fast][deep]", "import", false, 0, true, 1, 3, true, 0, false},
+	{"resume-import3+1tip+stop [batch][fast][deep]", "import", true, 1, true, 1, 0, true, 0, false},
 	// a storage error reported to the worker / the follower in the middle of their work: the
 	// worker's and the follower's own retry logic runs (no stop request: liveness oracle)
-	{"import3+fault@2 [batch]", "import", false, 0, false, 1, 0, false, 2},
-	{"import3+fault@3 [batch]", "import", false, 0, false, 1, 0, false, 3},
-	{"import+1tip+fault@2", "import", false, 1, false, 0, 0, false, 2},
-	{"remove+fault@2", "remove", false, 0, false, 0, 0, false, 2},
-	{"remove+fault@3", "remove", false, 0, false, 0, 0, false, 3},
-	{"remove+1tip+fault@4", "remove", false, 1, false, 0, 0, false, 4},
-	{"2tips+fault@1", "none", false, 2, false, 0, 0, false, 1},
+	{"import3+fault@2 [batch]", "import", false, 0, false, 1, 0, false, 2, false},
+	{"import3+fault@3 [batch]", "import", false, 0, false, 1, 0, false, 3, false},
+	{"import+1tip+fault@2", "import", false, 1, false, 0, 0, false, 2, false},
+	{"remove+fault@2", "remove", false, 0, false, 0, 0, false, 2, false},
+	{"remove+fault@3", "remove", false, 0, false, 0, 0, false, 3, false},
+	{"remove+1tip+fault@4", "remove", false, 1, false, 0, 0, false, 4, false},
+	{"2tips+fault@1", "none", false, 2, false, 0, 0, false, 1, false},
+	// API write calls racing with the worker's task (lock order between the wallet lock and
+	// the database write lock)
+	{"remove+api-write", "remove", false, 0, false, 0, 0, false, 0, true},
+	{"remove+api-write+stop", "remove", false, 0, true, 0, 0, false, 0, true},
+	{"import+api-write+1tip", "import", false, 1, false, 0, 0, false, 0, true},
 }
 
 type Opts struct {
@@ -250,6 +259,11 @@ func runOnce(sc Scn, prefix []int) (*vshim.Result, *sched.Exec, error) {
 							err = w.I.W.RemoveWallet(w.Wallets["B"].ID, world.PassB)
 						}
 						extraErrs = append(extraErrs, fmt.Sprint(err))
+					}
+					if sc.APIWrite {
+						_, e1 := w.I.W.UseWallet(w.Wallets["A"].ID)
+						_, e2 := w.NewAddress("A") // the world registers the address it returns
+						extraErrs = append(extraErrs, fmt.Sprint(e1), fmt.Sprint(e2))
 					}
 				})
 			}
